@@ -1,5 +1,5 @@
 """Stub of xdsl.dialects.builtin (types and attributes as plain records)."""
-from xdsl.ir import Attribute, Data, Operation, ParametrizedAttribute, SSAValue, TypeAttribute
+from xdsl.ir import Attribute, Block, Data, Operation, ParametrizedAttribute, Region, SSAValue, TypeAttribute
 from xdsl.utils.exceptions import VerifyException
 
 DYNAMIC_INDEX = -9223372036854775808  # xdsl 0.70: MLIR kDynamic (int64 min)
@@ -297,7 +297,18 @@ class UnrealizedConversionCastOp(Operation):
 
 
 class ModuleOp(Operation):
-    pass
+    def __init__(self, ops=()):
+        self._init_op([], [], [])
+        if isinstance(ops, Region):
+            self.body = ops
+        else:
+            self.body = Region([Block(list(ops))])
+        self.regions = [self.body]
+        self.body.parent = self
+
+    @property
+    def ops(self):
+        return self.body.block.ops
 
 
 class SymbolRefAttr(Attribute):
